@@ -4,6 +4,7 @@ import warnings
 
 import numpy as np
 
+from vlib.monitors import SimProbe
 from vlib import build, gen, simrun
 from vlib.monitors import Wrap, battery_state, ev_battery, ev_battery_json, json_charge
 
@@ -30,7 +31,7 @@ ANCHORS = [
     "acnportal.acnsim.analysis:aggregate_current",
     "acnportal.acnsim.analysis:total_energy_delivered",
 ]
-REQUIRED = ["peak_checked_at_period_end", "finished_simulations_continued_with_more_arrivals", "runs_with_scheduler_trial_charging_its_copies", "resumed_runs_judged", "resumed_after_json", "stochastic_runs_judged", "stochastic_runs_with_early_departure", "stochastic_cells_checked", "runs_judged", "sessions_reconciled", "charge_calls_logged", "vacant_cells_checked", "vacant_station_pilots",
+REQUIRED = ["peak_checked_at_period_end", "finished_simulations_continued_with_more_arrivals", "runs_with_scheduler_trial_charging_its_copies", "resumed_runs_judged", "resumed_after_json", "stochastic_runs_judged", "stochastic_runs_with_early_departure", "stochastic_cells_checked", "runs_judged", "sessions_reconciled", "charge_calls_logged", "charge_calls_matched_to_cells", "second_simulations_with_reset_evs", "vacant_cells_checked", "vacant_station_pilots",
             "battery_json_dumps", "regime:heterogeneous-voltage", "regime:noise-battery", "regime:two-stage", "regime:ideal"]
 BUDGET_S = {"quick": 240, "thorough": 3000}
 
@@ -69,7 +70,7 @@ def cases(seed, tier):
             d = gen.scenario(rng, sched="uncontrolled", noise_p=0.3)
         else:
             d = gen.scenario(rng, sched="sorted", kinds=("EVSE", "FR"), noise_p=0.3)
-        out.append({"desc": d, "meddle": rng.random() < 0.15, "continue": rng.random() < 0.2})
+        out.append({"desc": d, "meddle": rng.random() < 0.15, "continue": rng.random() < 0.2, "reuse": rng.random() < 0.15})
     for i in range(n // 6):
         d = gen.scenario(rng, sched=rng.choice(["scripted", "uncontrolled"]), noise_p=0.0)
         out.append({"desc": d, "resumed_at": rng.choice([1, 2, 4, 7])})
@@ -256,6 +257,23 @@ def run_case(case, obs):
         return _run_resumed(case, obs)
     d = case["desc"]
     sch = None
+    evs0 = None
+    if case.get("reuse") and not case.get("meddle"):
+        # day 2 of a study: the SAME EV objects after their public reset(), on a fresh network and simulator, under a scheduler
+        # that keeps some connected cars at 0 A in their first periods; the ledger of day 2 is judged
+        sim0, evs0 = build.build_sim(d)
+        try:
+            with warnings.catch_warnings():
+                warnings.simplefilter("ignore")
+                sim0.run()
+        except Exception:
+            evs0 = None
+        else:
+            for e_ in evs0:
+                e_.reset()
+            d = dict(d, scheduler={"kind": "scripted", "mr": 1, "seed": d.get("np_seed", 1), "t0": 0, "p_empty": 0.0, "max_len": 1, "p_st": 0.35,
+                                   "mode": "random"})
+            obs.ev("second_simulations_with_reset_evs")
     if case.get("meddle") and d["scheduler"]["kind"] == "scripted":
         # a look-ahead scheduler: trial-charges (and resets) the EV copies it is handed through the public accessor; the
         # ledger of the real sessions must not notice
@@ -278,9 +296,16 @@ def run_case(case, obs):
         obs.ev("runs_with_scheduler_trial_charging_its_copies")
     LOG["cur"] = log = []
     try:
-        sim, evs, probe = simrun.run_traced(d, scheduler=sch)
+        sim, evs = build.build_sim(d, scheduler=sch, evs=evs0)
+        LOG["sim"] = sim
+        probe = SimProbe(sim, snapshots=True)
+        probe.step_limit = simrun.last_event_ts(d) + 4
+        probe.attach()
+        probe.run()
+        probe.detach()
     finally:
         LOG["cur"] = None
+        LOG["sim"] = None
     wit = dict(scenario=d)
     if probe.exception is not None:
         obs.violate("run_raised", f"{type(probe.exception).__name__}: {probe.exception}", **wit)
@@ -296,38 +321,43 @@ def run_case(case, obs):
     model = simrun.occupant_model(d)
     tol = lambda x: 1e-9 * max(1.0, abs(x))
     # ---- per-step: each charge call's returned rate is the matrix entry of that station and period
-    it = iter(log)
-    calls_by_period = {}
+    # The calls are grouped by the period in which they were made (sim.iteration at call time) and by the EV's station; HOW
+    # OFTEN and IN WHICH ORDER the simulator calls EV.charge is its own business (the property is about the ledger), so a
+    # period without a call only requires that nothing was recorded, and of several calls the last one decides.
     snaps = {s["t"]: s for s in probe.snaps}
-    # charge calls happen inside update_pilots of period t in station order; recover t from the trace
-    n_calls_seen = 0
-    per_period_calls = []
     trace_periods = [t for t, letter, _ in probe.trace if letter == "A"]
-    idx = 0
-    for t in trace_periods:
+    by_cell = {}
+    for rec in log:
+        by_cell.setdefault((rec[7], rec[1]), []).append(rec)
+    if any(r[7] is None for r in log):
+        obs.ev("charge_log_without_period_tags")
+        by_cell = None
+    for t in trace_periods if by_cell is not None else []:
         occ = snaps[t]["occ"] if t in snaps else {}
         for st in ids:
             # post_charging_update does not unplug in a plain ChargingNetwork: occupancy at X = occupancy at A
-            if occ.get(st) is not None:
-                if idx >= len(log):
-                    obs.violate("missing_charge_call", f"period {t} station {st}: connected EV was not charged", **wit)
+            if occ.get(st) is None:
+                continue
+            calls = [r for r in by_cell.get((t, st), []) if r[0] == occ[st]]
+            if not calls:
+                obs.ev("connected_periods_without_charge_call")
+                if not (abs(cr[row[st], t]) <= 1e-9):
+                    obs.violate("recorded_rate_without_charge", f"period {t} station {st}: rate {cr[row[st], t]!r} recorded for {occ[st]} although its EV was not charged in that period", **wit)
                     return
-                sid, st_l, p, v, Tm, rate, e_after, _t = log[idx]
-                idx += 1
-                if sid != occ[st] or st_l != st:
-                    obs.violate("charge_call_order", f"period {t}: charge call for {sid}@{st_l}, expected {occ[st]}@{st}", **wit)
-                    return
-                if v != volt[st] or Tm != per:
-                    obs.violate("charge_call_voltage_or_period", f"period {t} station {st}: charged with V={v}, T={Tm}; station voltage {volt[st]}, period {per}", **wit)
-                    return
-                if p != sim.pilot_signals[row[st], t]:
-                    obs.violate("charge_call_pilot", f"period {t} station {st}: EV charged with pilot {p}, recorded pilot {sim.pilot_signals[row[st], t]}", **wit)
-                    return
-                if not (abs(cr[row[st], t] - rate) <= tol(rate)):
-                    obs.violate("recorded_rate_vs_charge_call", f"period {t} station {st}: recorded rate {cr[row[st], t]!r}, EV.charge returned {rate!r}", **wit)
-                    return
-    if idx != len(log):
-        obs.violate("extra_charge_calls", f"{len(log) - idx} EV.charge calls beyond the connected periods", **wit)
+                continue
+            if len(calls) > 1:
+                obs.ev("cells_with_several_charge_calls")
+            sid, st_l, p, v, Tm, rate, e_after, _t = calls[-1]
+            if v != volt[st] or Tm != per:
+                obs.violate("charge_call_voltage_or_period", f"period {t} station {st}: charged with V={v}, T={Tm}; station voltage {volt[st]}, period {per}", **wit)
+                return
+            if p != sim.pilot_signals[row[st], t]:
+                obs.violate("charge_call_pilot", f"period {t} station {st}: EV charged with pilot {p}, recorded pilot {sim.pilot_signals[row[st], t]}", **wit)
+                return
+            if not (abs(cr[row[st], t] - rate) <= tol(rate)):
+                obs.violate("recorded_rate_vs_charge_call", f"period {t} station {st}: recorded rate {cr[row[st], t]!r}, EV.charge returned {rate!r}", **wit)
+                return
+            obs.ev("charge_calls_matched_to_cells")
     # ---- per-session conservation
     any_energy = False
     for s in d["sessions"]:
@@ -380,20 +410,21 @@ def run_case(case, obs):
     if not (abs(sim.peak - exp_peak) <= tol(exp_peak)):
         obs.violate("peak", f"peak {sim.peak!r}, max aggregate recorded current {exp_peak!r}", **wit)
     # the peak is the maximum so far at the end of EVERY period (read in the end-of-period hook), not only when run() returns
-    run_max = 0.0
+    run_max = prev_max = 0.0
     for snap in probe.snaps:
         if snap["t"] < len(agg):
-            run_max = max(run_max, agg[snap["t"]])
+            prev_max, run_max = run_max, max(run_max, agg[snap["t"]])
             obs.ev("peak_checked_at_period_end")
-            if not (abs(snap["peak"] - run_max) <= tol(run_max)):
-                obs.violate("peak_lags_during_run", f"end of period {snap['t']}: peak {snap['peak']!r}, maximum recorded aggregate current so far {run_max!r}", **wit)
+            # whether the hook runs before or after the period's own column is folded in is not the property's business
+            if not (abs(snap["peak"] - run_max) <= tol(run_max) or abs(snap["peak"] - prev_max) <= tol(prev_max)):
+                obs.violate("peak_lags_during_run", f"end of period {snap['t']}: peak {snap['peak']!r}, maximum recorded aggregate current so far {run_max!r} (through the previous period {prev_max!r})", **wit)
                 break
     ac = acnsim.aggregate_current(sim)
-    if len(ac) != cr.shape[1] or not np.allclose(ac, agg, rtol=1e-9, atol=1e-12):
+    if len(ac) not in (cr.shape[1], T) or not np.allclose(ac[:T], agg[:T], rtol=1e-9, atol=1e-12) or np.any(np.asarray(ac[T:]) != 0):
         obs.violate("aggregate_current", "aggregate_current != column sums of charging_rates", **wit)
     ap = acnsim.aggregate_power(sim)
     exp_p = [sum(cr[i, t] * volt[st] for i, st in enumerate(ids)) / 1000.0 for t in range(cr.shape[1])]
-    if len(ap) != cr.shape[1] or not np.allclose(ap, exp_p, rtol=1e-9, atol=1e-12):
+    if len(ap) not in (cr.shape[1], T) or not np.allclose(ap[:T], exp_p[:T], rtol=1e-9, atol=1e-12) or np.any(np.asarray(ap[T:]) != 0):
         obs.violate("aggregate_power", "aggregate_power != sum(rate x station voltage)/1000", **wit)
     tot = acnsim.total_energy_delivered(sim)
     integ = sum(exp_p) * per / 60.0
